@@ -76,6 +76,22 @@ def verify_tuples(chk: Check) -> list[tuple[bool, str]]:
     return out
 
 
+def _unwrap(c: ast.Call):
+    """`asyncio.to_thread(f, a, b)` / `loop.run_in_executor(ex, f, a)` ->
+    (callee expression f, its arguments); plain calls are returned as is."""
+    d = (dotted(c.func) or "").split(".")[-1]
+    if d == "to_thread" and c.args:
+        return c.args[0], list(c.args[1:])
+    if d == "run_in_executor" and len(c.args) >= 2:
+        return c.args[1], list(c.args[2:])
+    return c.func, list(c.args)
+
+
+def _store_call(c: ast.Call, name: str) -> bool:
+    f, _a = _unwrap(c)
+    return isinstance(f, ast.Attribute) and f.attr == name and "tofu" in norm(f.value)
+
+
 def _wait_nodes(g):
     return [n for n in g.nodes if n.ast is not None and n.kind == "stmt" and n.has_await and "response_future" in norm(n.ast) and "create_connection" not in norm(n.ast)]
 
@@ -85,7 +101,7 @@ def _conn_nodes(g):
 
 
 def _verify_nodes(g):
-    return [n for n in g.nodes if n.ast is not None and n.kind == "stmt" and any(method_call(c) and method_call(c)[1] == "verify" and "tofu" in norm(method_call(c)[0]) for c in calls(n.ast))]
+    return [n for n in g.nodes if n.ast is not None and n.kind == "stmt" and any(_store_call(c, "verify") for c in calls(n.ast))]
 
 
 def rule_t1(chk: Check, funcs) -> None:
@@ -135,7 +151,7 @@ def run_samples(chk: Check, fi: FunctionInfo, cert_present=True):
 
         def oracle(c, _v=valid, _m=msg):
             mc = method_call(c)
-            if mc and mc[1] == "verify":
+            if _store_call(c, "verify"):
                 return TupleV((BoolV(_v) if isinstance(_v, bool) else BoolV(None), lit(_m) if isinstance(_m, str) else StrV("str")))
             if mc and mc[1] == "get_peer_certificate":
                 return ObjV("cert") if cert_present else NoneV()
@@ -148,7 +164,7 @@ def run_samples(chk: Check, fi: FunctionInfo, cert_present=True):
         summ = []
         for path, _ in res:
             ids = [n.id for n, _l in path]
-            ver = [i for i, (n, _l) in enumerate(path) if n.ast is not None and n.kind == "stmt" and any(method_call(c) and method_call(c)[1] == "verify" for c in calls(n.ast))]
+            ver = [i for i, (n, _l) in enumerate(path) if n.ast is not None and n.kind == "stmt" and any(_store_call(c, "verify") for c in calls(n.ast))]
             if cert_present and not ver:
                 continue
             start = ver[0] if ver else 0
@@ -161,9 +177,10 @@ def run_samples(chk: Check, fi: FunctionInfo, cert_present=True):
                 if n.kind == "stmt" and isinstance(n.ast, ast.Raise):
                     raised = n
                 for c in calls(n.ast if not isinstance(n.ast, ast.withitem) else n.ast.context_expr) if n.kind in ("stmt", "test", "with") else []:
-                    mc = method_call(c)
-                    if mc:
-                        called.append((mc[1], c, n))
+                    f, a = _unwrap(c)
+                    if isinstance(f, ast.Attribute):
+                        eff = c if f is c.func else ast.Call(func=f, args=a, keywords=[])
+                        called.append((f.attr, eff, n))
             reached_wait = any(n.id in waits for n, _l in tail)
             summ.append({"raised": raised, "called": called, "wait": reached_wait, "path": path, "end": path[-1][0].kind})
         results.append(((valid, msg), summ, g))
@@ -233,6 +250,41 @@ def rule_t2_t3(chk: Check, funcs) -> None:
             if bad:
                 chk.finding("T1", fi.key, "no-certificate-accepted", "when no certificate can be read the fetch proceeds unverified", bad[0]["path"][-1][0].where(), g.fmt_path(bad[0]["path"]))
             chk.ob("T1", f"{fi.key}: unreadable certificate -> refused", ok, evals=max(1, len(summ)))
+
+
+def rule_t8(chk: Check, funcs) -> None:
+    chk.rule("T8", "check-then-pin is atomic: no suspension point at or between tofu_db.verify and tofu_db.trust (unless the region is serialised by an `async with <lock>`)")
+    for fi in funcs:
+        g = build_cfg(chk.proj, fi)
+        ver = _verify_nodes(g)
+        trs = [n for n in g.nodes if n.ast is not None and n.kind == "stmt" and any(_store_call(c, "trust") for c in calls(n.ast))]
+        if not ver or not trs:
+            continue
+        locked = False
+        for w in walk(fi.node):
+            if isinstance(w, ast.AsyncWith) and any("lock" in norm(i.context_expr).lower() for i in w.items):
+                inside = lambda n: any(sub is n.ast for sub in ast.walk(w))  # noqa: E731
+                if all(inside(n) for n in ver + trs):
+                    locked = True
+        ok = True
+        bad = None
+        if not locked:
+            for v in ver:
+                region = g.reach([v.id], blocked_nodes={t.id for t in trs}, follow=normal_only)
+                cand = [g.nodes[i] for i in region] + trs
+                for n in cand:
+                    if n.has_await and (n.id == v.id or any(t.id in g.reach([n.id], follow=normal_only) for t in trs)) and (n.id in region or n in trs):
+                        # awaits that are not on the way from verify to trust do not matter
+                        if n in trs or any(t.id in g.reach([n.id], follow=normal_only) for t in trs):
+                            ok = False
+                            bad = n
+        if not ok:
+            chk.finding(
+                "T8", fi.key, "check-then-pin-not-atomic",
+                f"between checking the pin and pinning on first use the coroutine can be suspended (`{bad.text(60)}`): two concurrent connections to the same unpinned host:port can both see 'first_use', both succeed with different certificates, and the later pin silently replaces the earlier one",
+                bad.where(),
+            )
+        chk.ob("T8", f"{fi.key}: verify..trust has no suspension point", ok, "serialised by a lock" if locked else "", evals=len(ver) + len(trs))
 
 
 def rule_t4(chk: Check) -> None:
@@ -389,8 +441,8 @@ def rule_t6(chk: Check) -> None:
                 if not (isinstance(le, ast.Call) and (dotted(le.func) or "").endswith("parse_url") and le.args and dotted(le.args[0]) == gs.params[1]):
                     ok2 = False
     for n in _verify_nodes(g2):
-        call = next(c for c in calls(n.ast) if method_call(c) and method_call(c)[1] == "verify")
-        if [norm(a) for a in call.args[:2]] != [norm(kwarg(next(c for c in calls(cn.ast) if method_call(c) and method_call(c)[1] == "create_connection"), k)) for cn in _conn_nodes(g2)[:1] for k in ("host", "port")]:
+        call = next(c for c in calls(n.ast) if _store_call(c, "verify"))
+        if [norm(a) for a in _unwrap(call)[1][:2]] != [norm(kwarg(next(c for c in calls(cn.ast) if method_call(c) and method_call(c)[1] == "create_connection"), k)) for cn in _conn_nodes(g2)[:1] for k in ("host", "port")]:
             ok2 = False
     if not ok2:
         chk.finding("T6", gs.key, "verified-endpoint-mismatch", "the host/port that are verified are not the host/port of the URL being connected to", gs.loc())
@@ -405,7 +457,7 @@ def _shape(node: ast.AST, repl: dict[str, str]) -> str:
 
 
 def rule_t7(chk: Check, funcs) -> None:
-    chk.rule("T7", "get_peer_certificate of both client protocols agree; the TOFU regions of get and upload agree modulo messages")
+    chk.rule("T7", "advisory sibling comparison (never a finding: each sibling is decided on its own): get_peer_certificate x2; TOFU regions of get/upload")
     a = chk.proj.func("client.protocol:GeminiClientProtocol.get_peer_certificate")
     b = chk.proj.func("client.protocol:TitanClientProtocol.get_peer_certificate")
 
@@ -414,8 +466,8 @@ def rule_t7(chk: Check, funcs) -> None:
 
     ok = [norm(s) for s in body(a)] == [norm(s) for s in body(b)]
     if not ok:
-        chk.finding("T7", b.key, "peer-cert-divergence", "the two client protocols obtain the peer certificate differently", b.loc())
-    chk.ob("T7", "get_peer_certificate siblings agree", ok)
+        chk.note("T7 (advisory, not a verdict): the two client protocols obtain the peer certificate differently")
+    chk.ob("T7", "get_peer_certificate siblings compared (advisory)", True, "agree" if ok else "DIFFER", nontrivial=False)
     regions = {}
     for fi in funcs:
         for st in walk(fi.node):
@@ -423,14 +475,15 @@ def rule_t7(chk: Check, funcs) -> None:
                 regions[fi.key] = norm(ast.Module(body=st.body, type_ignores=[]))
     ok2 = len(regions) == len(funcs) and len(set(regions.values())) == 1
     if not ok2:
-        chk.finding("T7", SESSION, "tofu-region-divergence", "the TOFU verification blocks of get and upload differ: a repair or change was applied to one and not the other", "")
-    chk.ob("T7", "TOFU regions of get/upload agree", ok2, evals=len(regions))
+        chk.note("T7 (advisory, not a verdict): the TOFU verification blocks of get and upload differ textually; each is checked on its own by T1/T2/T3/T8")
+    chk.ob("T7", "TOFU regions of get/upload compared (advisory)", True, "agree" if ok2 else "DIFFER", nontrivial=False, evals=len(regions))
 
 
 def run(chk: Check) -> None:
     funcs = connecting_functions(chk)
     rule_t1(chk, funcs)
     rule_t2_t3(chk, funcs)
+    rule_t8(chk, funcs)
     rule_t4(chk)
     rule_t5(chk)
     rule_t6(chk)
